@@ -128,7 +128,7 @@ def main():
             newline = apply(c)
             ident = f"{c[0]}:{c[1]+1}:{c[2]}"
             desc = f"{ident} | {c[5].strip()[:90]}  =>  {newline.strip()[:90]}"
-            t = sh(f"cd {S}/repo && CARGO_TARGET_DIR={S}/target-repo cargo test --workspace --offline 2>&1 | tail -15")
+            t = sh(f"cd {S}/repo && CARGO_TARGET_DIR={S}/target-repo timeout 300 cargo test --workspace --offline 2>&1 | tail -15")  # a hanging suite counts as killed
             if "test result: ok. 73 passed" not in t.stdout:
                 verdict = "INVALID" if ("error[" in t.stdout or "error:" in t.stdout) and "test result" not in t.stdout else "KILLED-BY-SUITE"
                 L.write(f"{verdict} | {desc}\n"); L.flush(); continue
